@@ -3,7 +3,7 @@
    the schedule language of harness/C18/codriver.nelua:
      create k kind | resume k | resumev k shape a b c | yield | yieldv shape a b c
      push k shape a b c | pop k shape | peek k n | drop k n | status k (k = -1: main)
-     isyieldable | running | deeper d | ret a b | destroy k | close k | gc | sub d n | end
+     isyieldable | running | deeper d | ret a b | destroy k | close k | gc | sub d n | forget k | end
    Typed values travel as little-endian byte lists; the shapes (lists of component types) are
    fixed by the harness:  0 = (int64)  1 = (int64,int32,byte)  2 = (byte,int64)  3 = ([256]byte,int64).
    Body kind 0 = function(); kind 1 = function(int64,int32,byte): (byte,int64).
@@ -89,6 +89,7 @@ let () =
         | "close" -> Some (OClose (nat 1))
         | "gc" -> Some OGc
         | "sub" -> Some (OSub (nat 1, nat 2))
+        | "forget" -> Some (OForget (nat 1))
         | "end" -> Some (OEnd (enc_shape shapes.(2) [ 0L; 0L ], nat_of_int !nslots))
         | x -> failwith ("bad command " ^ x)
       in
